@@ -3,7 +3,7 @@
 # given checks (into a scratch evidence dir so committed evidence is not overwritten), undo.
 export GOFLAGS=-mod=mod GOPROXY=off GOSUMDB=off GOTOOLCHAIN=local
 patch=$(readlink -f "$1"); shift
-cd /verif || exit 2
+cd "$(dirname "$(readlink -f "$0")")/.." || exit 2   # (/verif, or a vp-run snapshot of it)
 exec 9>/tmp/repo.lock; flock 9   # (see tools/thorough_sweep.sh)
 [ -n "$(git -C /repo status --porcelain)" ] && { echo "/repo not clean"; exit 2; }
 git -C /repo apply "$patch" || { echo "patch does not apply"; exit 2; }
